@@ -23,7 +23,7 @@ RULE = (
 REAL = REAL_IP
 STUB = STUB_IP
 ASSUMPTIONS = ["canonical form as stated in README (Contributing) and the property text; compact JSON = no insignificant whitespace, key order free"]
-TIERS = {"quick": {"runs": 5000, "wall": 55}, "thorough": {"runs": 300000, "wall": 1500}}
+TIERS = {"quick": {"runs": 20000, "wall": 55}, "thorough": {"runs": 300000, "wall": 1500}}
 
 HOSTS = ["10.0.0.1", "192.168.100.200", "fd00::3", "2001:db8::8a2e:370:7334", "fe80::5%eth0", "fe80::1ff:fe23:4567:890a%3"]
 
